@@ -213,6 +213,29 @@ theorem reattach_inorder (cs : List RTrivia) : reattach cs [] = interleave none 
   have := reattachLoop_inorder cs [] 0 0 none (by simp)
   simpa [reattach] using this
 
+/-- Full-strength statement about the ORDER: the comments of the removed statement come, in
+order, before the leading trivia the next token already had. -/
+def reattach_inorder_full : Prop :=
+  ∀ (cs own : List RTrivia), reattach cs own = interleave none cs ++ own
+
+/-- False of the code as it is (finding F34): `offset += gap`. Witness: comments on lines 2 and
+4 (gap 2) and on line 7, next statement with its own comment. -/
+theorem reattach_inorder_full_false : ¬ reattach_inorder_full := by
+  intro h
+  have := h [⟨true, [45, 45, 97], some 2⟩, ⟨true, [45, 45, 98], some 4⟩, ⟨true, [45, 45, 116], some 7⟩]
+    [⟨true, [45, 45, 111], some 8⟩, ⟨false, [10], some 8⟩]
+  exact absurd this (by decide)
+
+/-- Partial theorem: when no two consecutive comments of the removed statement are two or more
+lines apart the order is kept, whatever the next token's own trivia. -/
+theorem reattach_inorder_small_gaps (cs own : List RTrivia) (h : smallGaps none cs = true) :
+    reattach cs own = interleave none cs ++ own := by
+  have := reattachLoop_small_gaps cs [] own 0 0 none (by simp) h
+  simpa [reattach] using this
+
+example : smallGaps none [⟨true, [45, 45, 97], some 2⟩, ⟨true, [45, 45, 98], some 3⟩,
+    ⟨true, [45, 45, 116], some 4⟩] = true := by decide
+
 /-- Whatever the insertion positions (the index overshoots after a gap of two or more), the
 newlines of the resulting leading trivia are those of the old trivia, those inside the kept
 comments, and one per line between the STARTING lines of consecutive comments. -/
@@ -221,12 +244,12 @@ theorem reattach_newlines (cs own : List RTrivia) :
   simpa [reattach] using nlAll_reattachLoop cs own 0 0 none
 
 /-- The invariant of the walk over the re-attached comments. -/
-private def walkInv (cur : Nat) (p : Bool) (prev : Option Nat) (lo : Nat) : Prop :=
+def walkInv (cur : Nat) (p : Bool) (prev : Option Nat) (lo : Nat) : Prop :=
   match prev with
   | none => (if p then cur + 1 else cur) ≤ lo
   | some lp => cur ≤ lp ∧ lo = lp + (if p then 1 else 0)
 
-private theorem interleave_budget (cs : List RTrivia) : ∀ (cur : Nat) (p : Bool) (prev : Option Nat)
+theorem interleave_budget (cs : List RTrivia) : ∀ (cur : Nat) (p : Bool) (prev : Option Nat)
     (lo : Nat) (tail : List Op), walkInv cur p prev lo → attached lo cs = true → singleLine cs = true →
     ∃ cur' p', budgetOk cur p (trivOps (interleave prev cs) ++ tail) = budgetOk cur' p' tail ∧
       (if p' then cur' + 1 else cur') ≤ endOf lo cs := by
